@@ -133,6 +133,7 @@ def run_chunk(prop: str, batch_seed: int, tier: str, indices: List[int], want_di
     faulthandler.dump_traceback_later(wall_limit, exit=True)
     try:
         mod = get_prop(prop)
+        _STATE["batch_seed"] = batch_seed
         agg: Dict[str, Any] = {"digest_by_index": {}, "samples": []}
         for i in indices:
             rs = run_seed(prop, batch_seed, i)
